@@ -677,6 +677,34 @@ pub fn run(prop: P, ctx: &RunCtx) {
         });
     }
 
+    // (6b) many erroneous lexemes in one text (counts around powers of two and well beyond):
+    // nothing may depend on how many lexical errors came before
+    {
+        let bad: Vec<&str> = vec!["0x ", "0b ", "0o ", "1e ", "1.5E+ ", "# ", "a😀 ", "\"0__1\" ", "'1__0' ", "§ ", "№№ ", "\\\\ "];
+        let counts = ctx.pick(vec![10usize, 63, 64, 65, 66, 129, 300], vec![10usize, 31, 32, 33, 63, 64, 65, 66, 127, 128, 129, 255, 256, 257, 300, 1000, 5000]);
+        let mut jobs: Vec<(usize, usize, bool)> = vec![];
+        for i in 0..=bad.len() {
+            for c in &counts {
+                jobs.push((i, *c, false));
+                jobs.push((i, *c, true));
+            }
+        }
+        ctx.par_units(jobs.len(), |j, st| {
+            let (i, n, spaced_out) = jobs[j];
+            let mut text = String::new();
+            for k in 0..n {
+                // one lexeme repeated, or (last job row) all of them in rotation
+                text.push_str(if i < bad.len() { bad[i] } else { bad[k % bad.len()] });
+                if spaced_out {
+                    text.push_str("x = 1;\n");
+                }
+            }
+            text.push_str("qubit é; /* end */ h é;\n");
+            let rep = text_case(prop, &text, "many-lexical-errors", false);
+            ctx.eval_local(name, st, rep);
+        });
+    }
+
     // (7) deep nesting probes (run on threads with large stacks; see main.rs)
     if prop == P::C01 || prop == P::C02 || prop == P::C12 {
         let depths = ctx.pick(vec![64usize, 256, 1024], vec![64usize, 256, 1024, 4096]);
